@@ -1,10 +1,11 @@
 --------------------------- MODULE TraceSegDelete ---------------------------
 (* Trace validation for C31. One ndjson record per scenario run on the REAL API server (package api) and, for
    kind "list", also on the REAL playback server (package playback), under the server zone of the record:
-     kind "del":     zone, g, u, us, w, written; obs = [status, gone: <<file indices missing afterwards>>]
-     kind "listdel": zone, g, idx (the file whose listed start was sent back); obs = [used: [u, us, off], status, gone]
-     kind "list":    zone, g; api = <<[u, us, off]>> (recordings/get, in the order returned),
-                               pb  = <<[u, us, off]>> (playback /list)
+     kind "del":     zone, g, d, s, us, w, written; obs = [status, gone: <<file indices missing afterwards>>]
+     kind "listdel": zone, g, idx (the file whose listed start was sent back); obs = [used: [d, s, us, off], status, gone]
+     kind "list":    zone, g; api = <<[d, s, us, off]>> (recordings/get, in the order returned),
+                               pb  = <<[d, s, us, off]>> (playback /list)
+   (d, s: day since 1970 and second of the day, UTC)
    Files are identified by the index of their start instant in SegTable; every scenario starts from the full tree. *)
 EXTENDS SegDelete
 
@@ -21,34 +22,39 @@ TraceSpec == TraceInit /\ [][TraceNext]_<<l, bucket, vars>>
 AfterOf(r) == InstIds \ Range(r.obs.gone)
 
 \* files in the order a listing returns them: by start instant
-Before(i, j) == Table[i].u < Table[j].u \/ (Table[i].u = Table[j].u /\ Table[i].us < Table[j].us)
+Before(i, j) == \/ Table[i].d < Table[j].d
+                \/ Table[i].d = Table[j].d /\ Table[i].s < Table[j].s
+                \/ Table[i].d = Table[j].d /\ Table[i].s = Table[j].s /\ Table[i].us < Table[j].us
 Rank(j) == 1 + Cardinality({i \in InstIds : Before(i, j)})
 FileAt(k) == CHOOSE j \in InstIds : Rank(j) = k
 
 ListOK(r, lst) ==
     /\ Len(lst) = Cardinality(InstIds)
     /\ \A k \in 1..Len(lst) : ListedEntryOK(r.g, r.zone, FileAt(k), lst[k])
-SameInstants(a, b) == Len(a) = Len(b) /\ \A k \in 1..Len(a) : a[k].u = b[k].u /\ a[k].us = b[k].us
+SameInstants(a, b) == Len(a) = Len(b) /\ \A k \in 1..Len(a) : a[k].d = b[k].d /\ a[k].s = b[k].s /\ a[k].us = b[k].us
 
-Explain(r, u, us, ww) ==
-    IF AfterOf(r) = DeleteImpl(r.g, r.zone, InstIds, u, us, ww, TRUE) THEN "ClientOffsetRendering" ELSE "none"
+Explain(r, d, s, us, ww) ==
+    \* named only if the deviation reproduces what happened and the handler without it would not have done the same
+    IF /\ AfterOf(r) = DeleteImpl(r.g, r.zone, InstIds, d, s, us, ww, TRUE)
+       /\ AfterOf(r) # DeleteImpl(r.g, r.zone, InstIds, d, s, us, ww, FALSE)
+    THEN "ClientOffsetRendering" ELSE "none"
 
 Verdict(r, ln) ==
     CASE r.kind = "del" ->
-           Monitor(DeleteOK(InstIds, AfterOf(r), r.u, r.us),
-                   [l |-> ln, monitor |-> "DeleteExact", explained |-> Explain(r, r.u, r.us, r.w)])
+           Monitor(DeleteOK(InstIds, AfterOf(r), r.d, r.s, r.us),
+                   [l |-> ln, monitor |-> "DeleteExact", explained |-> Explain(r, r.d, r.s, r.us, r.w)])
       [] r.kind = "listdel" ->
            \* what the list said about file idx was sent back: exactly that file must be gone
            Monitor(AfterOf(r) = InstIds \ {r.idx},
-                   [l |-> ln, monitor |-> "DeleteAsListed", explained |-> Explain(r, r.obs.used.u, r.obs.used.us, r.obs.used.off)])
+                   [l |-> ln, monitor |-> "DeleteAsListed", explained |-> Explain(r, r.obs.used.d, r.obs.used.s, r.obs.used.us, r.obs.used.off)])
       [] r.kind = "list" ->
            /\ Monitor(ListOK(r, r.api), [l |-> ln, monitor |-> "ApiListInstants", explained |-> "none"])
            /\ Monitor(ListOK(r, r.pb), [l |-> ln, monitor |-> "PlaybackListInstants", explained |-> "none"])
            /\ Monitor(SameInstants(r.api, r.pb), [l |-> ln, monitor |-> "ListsAgree", explained |-> "none"])
 
 Conforms(r) ==
-    CASE r.kind = "del" -> AfterOf(r) = DeleteImpl(r.g, r.zone, InstIds, r.u, r.us, r.w, CodeClientOffset)
-      [] r.kind = "listdel" -> AfterOf(r) = DeleteImpl(r.g, r.zone, InstIds, r.obs.used.u, r.obs.used.us, r.obs.used.off, CodeClientOffset)
+    CASE r.kind = "del" -> AfterOf(r) = DeleteImpl(r.g, r.zone, InstIds, r.d, r.s, r.us, r.w, CodeClientOffset)
+      [] r.kind = "listdel" -> AfterOf(r) = DeleteImpl(r.g, r.zone, InstIds, r.obs.used.d, r.obs.used.s, r.obs.used.us, r.obs.used.off, CodeClientOffset)
       [] OTHER -> TRUE
 
 Verdicts == l >= 1 => Verdict(Trace[l], l)
